@@ -107,11 +107,20 @@ func (f *samplerFam) play(l *Line, out *rec) error {
 	out.emit(map[string]interface{}{"a": "Reset", "conf": c.Name, "id": l.ID})
 	w := &countW{}
 	var logger zerolog.Logger
-	if c.Kind == "logger" {
+	built := false
+	build := func() {
+		// built at the first event, not before: in histories that begin with Toggle the logger gets its sampler while sampling
+		// is globally disabled (or just re-enabled) - what DisableSampling says when a logger is BUILT must not matter later
+		if built || c.Kind != "logger" {
+			return
+		}
+		built = true
 		logger = zerolog.New(w).Level(zerolog.Level(c.LL))
 		if root != nil {
 			logger = logger.Sample(root)
 		}
+	}
+	if c.Kind == "logger" {
 		zerolog.SetGlobalLevel(zerolog.Level(c.GL))
 	}
 	for opi, raw := range l.Ops {
@@ -125,6 +134,7 @@ func (f *samplerFam) play(l *Line, out *rec) error {
 			adm := root.Sample(zerolog.Level(op.Lvl))
 			out.emit(samplerOp{A: "Call", Lvl: op.Lvl, Now: op.Now, Adm: adm})
 		case "Log":
+			build()
 			before := w.n
 			logVia(&logger, zerolog.Level(op.Lvl), opi)
 			out.emit(samplerOp{A: "Log", Lvl: op.Lvl, Now: op.Now, Adm: w.n == before+1})
